@@ -54,7 +54,20 @@ Example C05_example :
   end.
 Proof. vm_compute. reflexivity. Qed.
 
+(* every context the API hands out (from_span, current_local_parent), in every history and
+   under every schedule, carries the trace id and the sampling decision of a root the program
+   created: sampled = true only for a trace with a sampled root; the contexts of a trace whose
+   roots are all unsampled carry sampled = false *)
+Theorem C05_extracted_contexts_from_roots :
+  forall dbg rc sc qc h,
+    Forall (fun o => match o with
+                     | OCall (RCtx (Some c)) => In (fst (fst c), snd c) (roots_of h)
+                     | _ => True
+                     end) (snd (run (sys_init dbg rc sc qc) h)).
+Proof. exact extracted_contexts_from_roots. Qed.
+
 Print Assumptions C05_reported_only_sampled_traces.
 Print Assumptions C05_unsampled_traces_silent.
 Print Assumptions C05_submit_filters.
 Print Assumptions C05_from_span_flag.
+Print Assumptions C05_extracted_contexts_from_roots.
